@@ -545,41 +545,38 @@ theorem checkConsistency_built_iff_spelled_out (s : Sequence) (hs : Sequence.Api
   rw [checkConsistency_built_iff s hs hSR, G12.filled_iff_positions (G12.apiBuilt_data_wf hs)]
   rfl
 
-/-- **"... and False otherwise", never an error** (after the repair of `checkConsistency`: a stored
-    subsequence that is itself inconsistent makes the answer False instead of raising
-    SequenceConsistencyError): an API-built sequence with a sample rate whose stored subsequences
-    each have a sample rate and at least one element (`SubsSound`) gets a boolean from
-    `checkConsistency` - neither of the two loops can fail: `addElement` validated every stored
-    element, and the only exception a `channels` query of such a subsequence can raise is
-    SequenceConsistencyError, which is caught.  What can still raise is named by
-    `checkConsistency_built_raise_source`. -/
+/-- **"... and False otherwise", never an error** (after the two repairs of `checkConsistency`,
+    D27 and D28: a stored subsequence that is itself inconsistent, holds no element or has no sample
+    rate makes the answer False instead of raising SequenceConsistencyError / KeyError): EVERY
+    API-built sequence with a sample rate gets a boolean from `checkConsistency` - neither of the
+    two loops can fail: `addElement` validated every stored element, and the only exceptions a
+    `channels` query of a stored subsequence can raise are SequenceConsistencyError and KeyError
+    (`G12.subChannels_error_cases`), which are caught.  No side condition on the stored
+    subsequences is left (before D28 this theorem needed `SubsSound`). -/
 theorem checkConsistency_built_never_raises (s : Sequence) (hs : Sequence.ApiBuilt s)
-    (hSR : Dict.has s.awgspecs "SR" = true) (ha : SubsSound s) :
+    (hSR : Dict.has s.awgspecs "SR" = true) :
     s.checkConsistency = .ok true ∨ s.checkConsistency = .ok false := by
   have hv := G11.apiBuilt_innerValidated hs
-  obtain ⟨b, hb⟩ := G12.checkConsistency_ok_of_noHardError hv hSR (G12.noHardError_of_subsSound hv ha)
+  obtain ⟨b, hb⟩ := G12.checkConsistency_ok_of_validated hv hSR
   cases b
   · exact .inr hb
   · exact .inl hb
 
 /-- **"... and False otherwise"**: under the same hypotheses `checkConsistency` returns False exactly
-    when one of the three conditions fails (an inconsistent stored subsequence answers no channel
-    list, so it falsifies the channel condition) -/
+    when one of the three conditions fails (an inconsistent or empty stored subsequence answers no
+    channel list, so it falsifies the channel condition) -/
 theorem checkConsistency_built_false_iff (s : Sequence) (hs : Sequence.ApiBuilt s)
-    (hSR : Dict.has s.awgspecs "SR" = true) (ha : SubsSound s) :
+    (hSR : Dict.has s.awgspecs "SR" = true) :
     s.checkConsistency = .ok false ↔ ¬ (SameSR s ∧ SameChannelSet s ∧ Filled s) := by
   rw [← checkConsistency_built_iff s hs hSR]
-  rcases checkConsistency_built_never_raises s hs hSR ha with h | h <;> simp [h]
+  rcases checkConsistency_built_never_raises s hs hSR with h | h <;> simp [h]
 
 /-- the case the quantifier names first - elements only: an API-built sequence with a sample rate
     that holds no subsequence gets True or False, never an exception -/
 theorem checkConsistency_built_elements_never_raises (s : Sequence) (hs : Sequence.ApiBuilt s)
-    (hSR : Dict.has s.awgspecs "SR" = true) (hel : ∀ x ∈ s.data, ∃ e, x.2 = .el e) :
-    s.checkConsistency = .ok true ∨ s.checkConsistency = .ok false := by
-  apply checkConsistency_built_never_raises s hs hSR
-  intro x hx sub hx2
-  obtain ⟨e, he⟩ := hel x hx
-  rw [he] at hx2; cases hx2
+    (hSR : Dict.has s.awgspecs "SR" = true) (_hel : ∀ x ∈ s.data, ∃ e, x.2 = .el e) :
+    s.checkConsistency = .ok true ∨ s.checkConsistency = .ok false :=
+  checkConsistency_built_never_raises s hs hSR
 
 /-- what "a stored subsequence answers its `channels` query" means: it is consistent itself and
     has an element at position 1, whose channels it reports -/
@@ -599,32 +596,34 @@ theorem checkConsistency_false_of_inconsistent_subsequence (s : Sequence) (srs :
   rw [G12.checkConsistency_of_channels_error s srs .consistency hSR h1 hs h2]
   rfl
 
-/-- **exactly when `checkConsistency` still raises on an API-built sequence with a sample rate**:
-    the entries agree on the sample rate (otherwise False is returned before the channels are looked
-    at) and the first `channels` query that fails, in store order, raises something other than
-    SequenceConsistencyError -/
+/-- **an empty stored subsequence (or one without a sample rate) gives False** (D28, for every
+    sequence): if a sample rate is set, the entries agree on the sample rate, and the first
+    `channels` query that fails (in store order) raises KeyError, `checkConsistency` returns False -/
+theorem checkConsistency_false_of_empty_subsequence (s : Sequence) (srs : List Val)
+    (hSR : Dict.has s.awgspecs "SR" = true)
+    (h1 : (Dict.vals s.data).mapM Entry.getSR = .ok srs) (hs : Element.allSame srs = true)
+    (h2 : (Dict.vals s.data).mapM Entry.channels = .error .key) :
+    s.checkConsistency = .ok false := by
+  rw [G12.checkConsistency_of_channels_error s srs .key hSR h1 hs h2]
+  rfl
+
+/-- the model's general statement of when `checkConsistency` raises (any sequence with a sample
+    rate and validated entries): the entries agree on the sample rate and the first `channels`
+    query that fails, in store order, raises something other than SequenceConsistencyError and
+    KeyError ... -/
 theorem checkConsistency_built_raises_iff (s : Sequence) (hs : Sequence.ApiBuilt s)
     (hSR : Dict.has s.awgspecs "SR" = true) :
     (∃ er, s.checkConsistency = .error er) ↔
-      SameSR s ∧ ∃ er, er ≠ .consistency ∧ (Dict.vals s.data).mapM Entry.channels = .error er :=
+      SameSR s ∧ ∃ er, ¬ (er = .consistency ∨ er = .key) ∧ (Dict.vals s.data).mapM Entry.channels = .error er :=
   G12.checkConsistency_raises_iff (G11.apiBuilt_innerValidated hs) hSR
 
-/-- **what can still raise**: on an API-built sequence with a sample rate the only exception of
-    `checkConsistency` is KeyError, and it comes from a stored subsequence that has no sample rate
-    of its own or holds no element at all (its `channels` query raises that KeyError) -/
-theorem checkConsistency_built_raise_source (s : Sequence) (hs : Sequence.ApiBuilt s)
-    (hSR : Dict.has s.awgspecs "SR" = true) (er : Err) (h : s.checkConsistency = .error er) :
-    er = .key ∧ ∃ p sub, (p, Entry.sub sub) ∈ s.data ∧ sub.channels = .error .key ∧
-      (Dict.has sub.awgspecs "SR" = false ∨ sub.data = []) := by
-  have hv := G11.apiBuilt_innerValidated hs
-  rcases G12.checkConsistency_cases hv hSR with ⟨b, hb⟩ | ⟨_, x, hx, sub, er', hx2, herr, hne, hcc⟩
-  · rw [hb] at h; cases h
-  · rw [hcc] at h
-    cases h
-    rcases G12.subChannels_error_cases sub ((hv x hx).2 sub hx2) er herr with hc | ⟨hk, hwhy⟩
-    · exact absurd hc hne
-    · subst hk
-      exact ⟨rfl, x.1, sub, by rw [← hx2]; exact hx, herr, hwhy⟩
+/-- ... **which never happens on an API-built sequence**: with a sample rate set, `checkConsistency`
+    raises nothing at all (before D28: KeyError from a stored subsequence without a sample rate or
+    without any element) -/
+theorem checkConsistency_built_no_exception (s : Sequence) (hs : Sequence.ApiBuilt s)
+    (hSR : Dict.has s.awgspecs "SR" = true) (er : Err) : s.checkConsistency ≠ .error er := by
+  intro h
+  rcases checkConsistency_built_never_raises s hs hSR with h2 | h2 <;> rw [h2] at h <;> cases h
 
 /-- **the empty sequence, as the code treats it**: with a sample rate set, an empty store counts as
     consistent (the code substitutes `[None]` / `[1]` for the empty lists) -/
@@ -637,30 +636,27 @@ theorem checkConsistency_empty (s : Sequence) (hSR : Dict.has s.awgspecs "SR" = 
   · unfold Filled; rw [h]; exact List.Perm.refl _
 
 /-- **"in whatever order they were added", on the store**: two sequences with sample rates whose
-    stores hold the same (position, entry) pairs in different orders give the same answer, provided
-    the stored subsequences each have a sample rate and at least one element.  (Without that proviso
-    the first failing `channels` query in store order decides between False and KeyError, see
-    `checkConsistency_order_matters_with_empty_subsequence`; the answer True is order-independent
-    for every sequence by `checkConsistency_true_iff_conditions`.) -/
+    stores hold the same (position, entry) pairs in different orders give the same answer - with no
+    proviso on the stored subsequences any more (before D28 an empty stored subsequence made the
+    first failing `channels` query in store order decide between False and KeyError; see
+    `checkConsistency_order_irrelevant_with_empty_subsequence` for the former counterexample). -/
 theorem checkConsistency_store_order_irrelevant (a b : Sequence) (ha : Sequence.ApiBuilt a)
-    (hp : a.data.Perm b.data) (hSRa : Dict.has a.awgspecs "SR" = true) (hSRb : Dict.has b.awgspecs "SR" = true)
-    (hsound : SubsSound a) :
+    (hp : a.data.Perm b.data) (hSRa : Dict.has a.awgspecs "SR" = true) (hSRb : Dict.has b.awgspecs "SR" = true) :
     a.checkConsistency = b.checkConsistency :=
   G12.checkConsistency_perm hp (G11.apiBuilt_innerValidated ha) hSRa hSRb
-    (G12.noHardError_of_subsSound (G11.apiBuilt_innerValidated ha) hsound)
+    (G12.noHardError_of_validated (G11.apiBuilt_innerValidated ha))
 
 /-- **"in whatever order they were added", on API histories**: starting from any API-built sequence
     with a sample rate, two lists of `addElement` / `addSubSequence` calls (`AddOp`; each accepted or
     refused) that are permutations of each other and address pairwise distinct positions lead to
-    the same answer of `checkConsistency` - provided every subsequence stored in the end has a sample
-    rate and at least one element.  (With a position addressed twice the later call overwrites the
-    earlier one, so there the order does matter.) -/
+    the same answer of `checkConsistency`.  (With a position addressed twice the later call
+    overwrites the earlier one, so there the order does matter.) -/
 theorem checkConsistency_add_order_irrelevant (s : Sequence) (hs : Sequence.ApiBuilt s)
     (hSR : Dict.has s.awgspecs "SR" = true) (ops ops' : List AddOp) (hb : ∀ op ∈ ops, op.Built)
-    (hp : ops.Perm ops') (hnd : (ops.map AddOp.pos).Nodup) (hsound : SubsSound (addAll s ops)) :
+    (hp : ops.Perm ops') (hnd : (ops.map AddOp.pos).Nodup) :
     (addAll s ops).checkConsistency = (addAll s ops').checkConsistency := by
   apply checkConsistency_store_order_irrelevant _ _ (G12.addAll_built s hs ops hb)
-    (G12.addAll_data_perm s (G12.apiBuilt_data_wf hs) hp hnd) _ _ hsound
+    (G12.addAll_data_perm s (G12.apiBuilt_data_wf hs) hp hnd)
   · rw [G12.addAll_specs]; exact hSR
   · rw [G12.addAll_specs]; exact hSR
 
@@ -745,14 +741,16 @@ theorem checkConsistency_inconsistent_subsequence_is_false :
 /-- an empty sequence with sample rate 10, as a subsequence argument -/
 def g12SubEmpty : Sequence := g12Base
 
-/-- **what can still raise, and that the store order then matters** (witness): an API-built parent
-    with sample rate 10 storing a subsequence with a hole and an *empty* subsequence: with the
-    inconsistent one first the answer is False, with the empty one first `checkConsistency` raises
-    KeyError (the empty subsequence's `channels` query looks up its position 1) -/
-theorem checkConsistency_order_matters_with_empty_subsequence :
+/-- **the second former counterexample** (D28; before that repair the second line was
+    `.error .key` and the store order mattered): an API-built parent with sample rate 10 storing a
+    subsequence with a hole and an *empty* subsequence gets False in either store order; so does a
+    parent holding an element and an empty subsequence, and one holding the empty subsequence alone -/
+theorem checkConsistency_order_irrelevant_with_empty_subsequence :
     (addAll g12Base [.sub 1 g12SubHole, .sub 2 g12SubEmpty]).checkConsistency = .ok false ∧
-    (addAll g12Base [.sub 2 g12SubEmpty, .sub 1 g12SubHole]).checkConsistency = .error .key := by
-  constructor <;> decide +kernel
+    (addAll g12Base [.sub 2 g12SubEmpty, .sub 1 g12SubHole]).checkConsistency = .ok false ∧
+    (addAll g12Base [.el 1 (g12El (.int 1) 10), .sub 2 g12SubEmpty]).checkConsistency = .ok false ∧
+    (addAll g12Base [.sub 1 g12SubEmpty]).checkConsistency = .ok false := by
+  refine ⟨?_, ?_, ?_, ?_⟩ <;> decide +kernel
 
 /-- non-vacuity of `subsequence_answers_iff` / `SubsAnswer`: a stored consistent subsequence answers -/
 example : (addAll g12Base [.sub 1 (addAll g12Base g12Ops21)]).checkConsistency = .ok true := by
